@@ -41,7 +41,8 @@ type ProviderCache struct {
 	seq       uint
 	write     map[peer.ID]*cacheInfo
 	writeLock chan struct{}
-	// refreshIncomplete is true if the last refresh did not run to completion.
+	// refreshIncomplete is true if the last holder of writeLock was not a
+	// refresh that ran to completion.
 	refreshIncomplete bool
 
 	needsRefresh atomic.Bool
@@ -445,6 +446,10 @@ func (pc *ProviderCache) fetchMissing(ctx context.Context, pid peer.ID) (*readPr
 	defer func() {
 		<-pc.writeLock
 	}()
+
+	// A Refresh that is waiting for the write lock must not take the end of
+	// this lookup for the end of a refresh.
+	pc.refreshIncomplete = true
 
 	seq := pc.seq
 
